@@ -127,7 +127,7 @@ def generate(rng, index, tier):
             th = rng.pick(d['threads'])
             base = rng.randrange(1, 1 << 30) << 12
             th['ops'].append(worlds.op_sample(rng, thd=None, uhdr=(1, 3), udata=[[base + 5, base + 0x2000, 3, 4]]))
-            th['ops'].append(worlds.op_imap(rng, rng.randbytes(16).hex(), base))
+            th['ops'].append(worlds.op_imap(rng, worlds.draw_uuid(rng), base))
             d['late_image'] = True
         # operations of different classes that overlap without nesting on one thread (START mach, START bsd, END mach, END bsd)
         if rng.chance(0.3):
@@ -178,6 +178,8 @@ def generate(rng, index, tier):
             hist.append({'op': 'set', 'filters': _gen_filters(rng, dumps[di])})
         elif r < 0.3:
             hist.append({'op': 'mutate', 'how': rng.pick(['append', 'remove']), 'value': rng.pick([4, 1, 0x1f, 7, 3])})
+            if rng.chance(0.3):
+                hist[-1].update({'which': 'sub', 'value': rng.pick([0x040c, 0x0401, 0x0103])})
         elif r < 0.7:
             hist.append({'op': 'request', 'dump': di, 'what': rng.pick(['traces', 'traces', 'formatted_traces']), 'repeat': rng.chance(0.5),
                          'codes': rng.pick(['arg', 'arg', 'arg', 'none', 'other'])})
@@ -286,6 +288,16 @@ def execute(scn):
                     tp_[r['a'][1]] = r['a'][0]
         filter_sensitive.append(sens)
     refs = {}
+    viols = []
+
+    def check_newborn(after):
+        # an object nobody configured has no filter, whatever other objects were told (its settings are its own)
+        nb = tool.pk_mod.PyKdebugParser()
+        if nb.filter_tid is not None or nb.filter_process is not None or nb.filter_class or nb.filter_subclass:
+            if not any(v['tag'] == 'new-object-born-filtered' for v in viols):
+                viols.append({'tag': 'new-object-born-filtered', 'sig': 'after',
+                              'detail': 'after %s a newly created PyKdebugParser has (tid, process, class, subclass) = %r' % (
+                                  after, (nb.filter_tid, nb.filter_process, nb.filter_class, nb.filter_subclass))})
 
     def ref_traces(di, tref=None):
         """Unfiltered reference run on a fresh parser, with the tool's own process attribution snapshotted per trace."""
@@ -311,7 +323,6 @@ def execute(scn):
         bump('earlier_other_objects')
     p = tool.pk_mod.PyKdebugParser()
     cur = {}
-    viols = []
     hist = []
     shapes = set()
     nontrivial = False
@@ -340,14 +351,18 @@ def execute(scn):
     for h in scn['history']:
         if h['op'] == 'mutate':
             # the caller edits its own class list in place between requests
-            if isinstance(p.filter_class, list) and (p.filter_class or p.filter_subclass):
+            # (also the lists the object was born with: they belong to this object alone)
+            lst = p.filter_subclass if h.get('which') == 'sub' else p.filter_class
+            if isinstance(lst, list) and isinstance(p.filter_class, list) and isinstance(p.filter_subclass, list):
                 if h['how'] == 'append':
-                    p.filter_class.append(h['value'])
-                elif p.filter_class:
-                    p.filter_class.pop(0)
+                    lst.append(h['value'])
+                elif lst:
+                    lst.pop(0)
                 cur = dict(cur)
                 cur['cls'] = list(p.filter_class)
+                cur['sub'] = list(p.filter_subclass)
                 cur['as_tuple'] = False
+                check_newborn('in-place edit of the long-lived object\'s list')
                 bump('fault:reconfigure')
                 bump('filter_list_edited_in_place')
             continue
